@@ -14,6 +14,7 @@
 //	R9 uuid.NewV4 / uuid.New                -> simrt.NewUUID (seeded, per node)
 //	R10 replica.(*Replica).openFile         -> result wrapped by simrt.WrapDisk (data-file fault seam)
 //	R11 for-loops that poll with time.Sleep  -> simrt.PollPoint() at the top of the body (the condition is read at quiescence)
+//	R12 select with several receive cases    -> switch over simrt.Select(site, chans...): keyed choice among ready cases
 //	R6 error-inject/default.go              -> hooks calling simrt.Hook
 //	R7 app: RegisterFrontend helper
 //
@@ -53,7 +54,7 @@ func die(format string, a ...interface{}) {
 }
 
 type stats struct {
-	mutex, gostmt, maprange, net, nodevar, timer, disk, poll int
+	mutex, gostmt, maprange, net, nodevar, timer, disk, poll, sel int
 }
 
 func main() {
@@ -143,7 +144,7 @@ func main() {
 	if err := os.WriteFile(filepath.Join(dir, "go.mod"), gm, 0644); err != nil {
 		die("go.mod: %v", err)
 	}
-	fmt.Printf("instrument: mutex=%d go=%d maprange=%d net=%d nodevar=%d timer=%d disk=%d poll=%d\n", st.mutex, st.gostmt, st.maprange, st.net, st.nodevar, st.timer, st.disk, st.poll)
+	fmt.Printf("instrument: mutex=%d go=%d maprange=%d net=%d nodevar=%d timer=%d disk=%d poll=%d select=%d\n", st.mutex, st.gostmt, st.maprange, st.net, st.nodevar, st.timer, st.disk, st.poll, st.sel)
 	if st.disk != 1 {
 		die("R10: expected exactly one replica.openFile returning sparse.NewDirectFileIoProcessor(...), rewrote %d", st.disk)
 	}
@@ -316,6 +317,71 @@ func rewriteFile(fset *token.FileSet, p *packages.Package, f *ast.File, rel stri
 				st.poll++
 				changed = true
 			}
+		case *ast.SelectStmt:
+			// R12: several receive cases -> keyed choice among the ready ones (simrt.Select)
+			if len(n.Body.List) < 2 {
+				return true
+			}
+			hasDefault := false
+			for _, cc := range n.Body.List {
+				if cc.(*ast.CommClause).Comm == nil {
+					hasDefault = true
+				}
+			}
+			if hasDefault {
+				if len(n.Body.List) > 2 {
+					die("%s: R12: select with default and several cases", fset.Position(n.Pos()))
+				}
+				return true // one case + default: nothing to choose
+			}
+			if _, labeled := c.Parent().(*ast.LabeledStmt); labeled {
+				die("%s: R12: labeled select", fset.Position(n.Pos()))
+			}
+			tmp++
+			pos := fset.Position(n.Pos())
+			site := fmt.Sprintf("%s:%d", rel, pos.Line)
+			iv := ast.NewIdent(fmt.Sprintf("__simi%d", tmp))
+			vv := ast.NewIdent(fmt.Sprintf("__simv%d", tmp))
+			var pro []ast.Stmt
+			args := []ast.Expr{&ast.BasicLit{Kind: token.STRING, Value: strconv.Quote(site)}}
+			var clauses []ast.Stmt
+			for k, ccs := range n.Body.List {
+				cc := ccs.(*ast.CommClause)
+				cn := ast.NewIdent(fmt.Sprintf("__simc%d_%d", tmp, k))
+				var recv *ast.UnaryExpr
+				var body []ast.Stmt
+				body = append(body, &ast.AssignStmt{Lhs: []ast.Expr{ast.NewIdent("_")}, Tok: token.ASSIGN, Rhs: []ast.Expr{vv}})
+				switch cm := cc.Comm.(type) {
+				case *ast.ExprStmt:
+					recv, _ = cm.X.(*ast.UnaryExpr)
+				case *ast.AssignStmt:
+					if len(cm.Lhs) == 1 && len(cm.Rhs) == 1 {
+						recv, _ = cm.Rhs[0].(*ast.UnaryExpr)
+						if id, ok := cm.Lhs[0].(*ast.Ident); !(ok && id.Name == "_") {
+							body = append(body, &ast.AssignStmt{Lhs: cm.Lhs, Tok: cm.Tok, Rhs: []ast.Expr{
+								&ast.CallExpr{Fun: sel("RecvAs"), Args: []ast.Expr{cn, vv}}}})
+						}
+					}
+				}
+				if recv == nil || recv.Op != token.ARROW {
+					die("%s: R12: select case that is not a plain receive", fset.Position(cc.Pos()))
+				}
+				pro = append(pro, &ast.AssignStmt{Lhs: []ast.Expr{cn}, Tok: token.DEFINE, Rhs: []ast.Expr{recv.X}})
+				args = append(args, cn)
+				var list []ast.Expr // the last case is `default:` so that a select whose cases all return stays a terminating statement
+				if k < len(n.Body.List)-1 {
+					list = []ast.Expr{&ast.BasicLit{Kind: token.INT, Value: strconv.Itoa(k)}}
+				}
+				clauses = append(clauses, &ast.CaseClause{List: list, Body: append(body, cc.Body...)})
+			}
+			sw := &ast.SwitchStmt{
+				Init: &ast.AssignStmt{Lhs: []ast.Expr{iv, vv}, Tok: token.DEFINE, Rhs: []ast.Expr{&ast.CallExpr{Fun: sel("Select"), Args: args}}},
+				Tag:  iv,
+				Body: &ast.BlockStmt{List: clauses},
+			}
+			c.Replace(&ast.BlockStmt{List: append(pro, sw)})
+			st.sel++
+			changed = true
 		case *ast.GoStmt:
 			st.gostmt++
 			changed = true
